@@ -75,7 +75,7 @@ var FastaParser = pars.Seq(
 	desc := string(result.Children[1].Token)
 	body := result.Children[2].Token
 	lines := bytes.Split(body, []byte{'\n'})
-	data := bytes.Join(lines, nil)
+	data := bytes.ReplaceAll(bytes.Join(lines, nil), []byte{'\r'}, nil)
 	result.SetValue(Fasta{desc, data})
 	return nil
 })
